@@ -70,6 +70,7 @@ Definition eraser (ea : list Z) (eb : list (Z * Z)) (l : stereo_labels) : stereo
 Definition slab_eqb (x y : stereo_labels) : bool := list_eqb lab_eqb (fst x) (fst y) && list_eqb blab_eqb (snd x) (snd y).
 Definition final_ok ea eb hs th ct nb tags rbonds exp :=
   pyres_eqb slab_eqb (from_stereo_final (eraser ea eb) (isH_of hs) th ct (nb_of nb) tags rbonds) exp.
+Definition plain_ok a bb exp := Bool.eqb (uses_plain_order a bb) exp.
 Definition ringb_ok sizes exp := Bool.eqb (ring_bond_chiral sizes) exp.
 Definition rbo_ok t exp := pyres_eqb Z.eqb (rdkit_bond_order t) exp.
 Definition bt_ok o exp := pyres_eqb String.eqb (bond_type o) exp.
@@ -245,6 +246,12 @@ RING_ALKENE_SMILES = ['C1CCC/C=C/CC1', 'C1CCC/C=C\\CC1', 'C1CC/C=C\\CC1', 'C1CCC
                       'CC1CC/C=C/CCC1', 'CC1CC/C=C\\CCC1', 'OC1CCC/C=C\\CC1', 'C1CCCC/C=C\\CC1', 'C1CCCC/C=C/CCC1', 'C1C/C=C\\CC1', 'O=C1CC/C=C/CCC1',
                       'C1CCC/C=C/C/C=C/CCC1', 'C1CC/C(C)=C(C)\\CCC1', 'N1CCC/C=C/CC1', 'C1CCC/C=C/CC1C(=O)O', 'C/1CCCCCC\\C=1', 'CCC/C=C/CCC',
                       'C1CCCCC/C=C/CCCCC1']
+# tetrahedral centres whose arms differ ONLY by the configuration of a double bond (and controls: the same with another labelled
+# centre, double bonds whose ends differ only by tetrahedral configuration, allene arms); no other labelled centre in the molecule
+EZ_DEPENDENT_SMILES = ['C/C=C/[C@H](O)/C=C\\C', 'C/C=C/[C@@H](O)/C=C\\C', 'C/C=C/[C@H](/C=C\\C)C1CC1', 'F/C=C/[C@](C)(Cl)/C=C\\F', 'C/C=C/[C@H](N)/C=C\\C',
+                       'C/C=C\\[C@H](O)/C=C/C', 'CC/C=C/[C@@H](F)/C=C\\CC', 'C/C=C/[C@H](O)/C=C\\C.[Na+].[Cl-]', 'O[C@H](/C=C/c1ccccc1)/C=C\\c1ccccc1',
+                       'C/C=C/[C@]1(/C=C\\C)CCO1', 'C/C=C/[C@H](O)/C=C\\C.F[C@H](Cl)Br', 'F/C=C([C@H](C)Cl)/[C@@H](C)Cl', 'C[C@@H](O)[C@H](O)[C@H](C)O',
+                       'C/C=C/C(/C=C\\C)=C/F', 'C/C=C/[C@H](C=C)/C=C\\C', 'C/C=C/[C@H](CC=C)/C=C\\C']
 BARE_SMILES = ['[Na]', '[K]', '[Li]', '[Mg]', '[Ca]', '[Al]', '[B]', '[Si]', '[P]', '[S]', '[Se]', '[Ge]', '[As]', '[Sn]', '[Pb]',
                '[Na].[Cl]', '[S].C', '[Be]', '[Ga]', '[In]', '[Sb]', '[Bi]', '[Te]', '[Rb]', '[Cs]', '[Sr]', '[Ba]']
 
@@ -386,6 +393,23 @@ def corr_ring_bonds(cs, tag, m):
         ck.case(('ringb', tag, n, mm), nontrivial=obs)
 
 
+def corr_chiral_order(cs, tag, m):
+    """the entry test of _chiral_morgan on a fresh copy of m: the stereo-blind order object itself is returned exactly when the
+    molecule has no labelled atom and no labelled bond"""
+    ck = cs.ck
+    try:
+        c = m.copy()
+        c.flush_stereo_cache()
+        obs = c._chiral_morgan is c.atoms_order
+        la = [n for n, a in c.atoms() if a.stereo is not None]
+        lb = [n for n, mb in c._bonds.items() if any(bd.stereo is not None for bd in mb.values())]
+    except Exception:
+        return
+    cs.add(f'plain_ok {lst(la, zraw)} {lst(lb, zraw)} {b(obs)}', (tag, 'chiral-order entry test', la[:4], lb[:4], obs))
+    ck.count('chiral-order:' + ('plain' if obs else 'refined') + (':bond labels only' if lb and not la else ''))
+    ck.case(('chiral-order', tag), nontrivial=not obs)
+
+
 def corr_to(cs, tag, m, keep=True):
     """one run of the real to_rdkit_molecule on m against the model"""
     ck = cs.ck
@@ -399,6 +423,7 @@ def corr_to(cs, tag, m, keep=True):
     ctreg = dict(m.stereogenic_cis_trans) if labelled else {}
     hs = [t[0] for t in snap['atoms'] if t[1] == 1]
     corr_ring_bonds(cs, tag, m)
+    corr_chiral_order(cs, tag, m)
     tap = TapTo()
     rd = tap.run(m, keep_mapping=keep)
     meta = (tag, 'to', keep)
@@ -497,6 +522,7 @@ def corr_from(cs, tag, rd):
     hs = pre['hs']
     if m is not None:
         corr_ring_bonds(cs, tag + '|result', m)
+        corr_chiral_order(cs, tag + '|result', m)
     spare = 2
     stereo_of = {t[0]: t[9] for t in pre['atoms']}
     for i, (name, nb) in enumerate(rsnap['tags']):
@@ -795,6 +821,7 @@ def correspondence(ck, n_corpus):
            [('atoms', x) for x in pick(ATOM_SMILES, 22, 'at')] + [('bare', x) for x in pick(BARE_SMILES, 3, 'ba')] + [('dative', x) for x in pick(dative_smiles(), 8, 'da')] + \
            [('isotope+charge', x) for x in ISO_CHARGE_SMILES[:6] + pick(ISO_CHARGE_SMILES[6:], 4, 'ic')] + \
            [('ring-alkene', x) for x in RING_ALKENE_SMILES[:6] + pick(RING_ALKENE_SMILES[6:], 4, 'ra')] + \
+           [('E/Z-dependent centre', x) for x in EZ_DEPENDENT_SMILES[:5] + pick(EZ_DEPENDENT_SMILES[5:], 3, 'ez')] + \
            [('perm', x) for x in pick(perm_smiles(), 14, 'pe')] + \
            [('corpus', x) for x in corpus.sample(corpus.lipo(), n_corpus, ck.seed, 'c20corr')] + \
            [('corpus-stereo', x) for x in corpus.sample(corpus.stereo_smiles(), n_corpus // 2, ck.seed, 'c20corrs')]
@@ -802,7 +829,7 @@ def correspondence(ck, n_corpus):
     for kind, smi in pool:
         forms = normal_forms(smi)
         ck.count('corr-input:' + kind + ('' if forms else ' (not accepted by chython)'))
-        rich = kind in ('stereo', 'perm', 'corpus-stereo', 'ring-alkene')
+        rich = kind in ('stereo', 'perm', 'corpus-stereo', 'ring-alkene', 'E/Z-dependent centre')
         if forms:
             kek, aro = forms
             variants = [('kekule', kek), ('aromatic', aro)] if str(kek) != str(aro) else [('plain', kek)]
@@ -1666,6 +1693,7 @@ def search(ck, n_corpus, extra=()):
     pool = [('directed', s) for s in extra] + [('stereo', s) for s in STEREO_SMILES] + [('metal', s) for s in METAL_SMILES] + \
            [('atoms', s) for s in ATOM_SMILES] + [('bare', s) for s in BARE_SMILES] + [('dative', s) for s in dative_smiles()] + \
            [('isotope+charge', s) for s in ISO_CHARGE_SMILES] + [('ring-alkene', s) for s in RING_ALKENE_SMILES] + \
+           [('E/Z-dependent centre', s) for s in EZ_DEPENDENT_SMILES] + \
            [('perm', s) for s in (perm_smiles() if full else corpus.sample(perm_smiles(), 40, ck.seed, 'c20sp'))] + \
            [('corpus', s) for s in corpus.sample(corpus.lipo(), n_corpus, ck.seed, 'c20search')] + \
            [('corpus-stereo', s) for s in corpus.sample(corpus.stereo_smiles(), n_corpus, ck.seed, 'c20searchs')]
